@@ -549,10 +549,15 @@ pub fn ci_wilson(
     let mean = (n_s + z_sq / 2.) / (n + z_sq);
     let span = (z / (n + z_sq)) * ((n_s * n_f / n) + (z_sq / 4.)).sqrt();
 
+    // the bounds are proportions: rounding must not push them outside of [0, 1]
+    // (e.g., with very large populations and only a few successes or failures)
+    let low = (mean - span).max(0.);
+    let high = (mean + span).min(1.);
+
     match confidence {
-        Confidence::TwoSided(_) => Interval::new(mean - span, mean + span).map_err(|e| e.into()),
-        Confidence::UpperOneSided(_) => Interval::new(mean - span, 1.).map_err(|e| e.into()),
-        Confidence::LowerOneSided(_) => Interval::new(0., mean + span).map_err(|e| e.into()),
+        Confidence::TwoSided(_) => Interval::new(low, high).map_err(|e| e.into()),
+        Confidence::UpperOneSided(_) => Interval::new(low, 1.).map_err(|e| e.into()),
+        Confidence::LowerOneSided(_) => Interval::new(0., high).map_err(|e| e.into()),
     }
 }
 
